@@ -823,7 +823,29 @@ func TestRAC_C08(t *testing.T) {
 		rep.Programs++
 		rep.count(src)
 		rep.Runs++
-		where, what := tryAPI(src)
+		// an API call that never returns (a lock left held, a loop the deadline does not stop) must not hang the
+		// check: the calls run in a goroutine and are given ten seconds
+		type outcome struct {
+			where string
+			what  interface{}
+		}
+		done := make(chan outcome, 1)
+		go func(src string) {
+			w, x := tryAPI(src)
+			done <- outcome{w, x}
+		}(src)
+		var where string
+		var what interface{}
+		select {
+		case o := <-done:
+			where, what = o.where, o.what
+		case <-time.After(10 * time.Second):
+			rep.Violations = append(rep.Violations, racVio{Kind: "api-call-does-not-return", Script: src, Expected: "every API call returns (each run has a 500 ms deadline)", Got: "no return within 10 s: a lock left held or a loop that ignores the deadline"})
+			for _, v := range rep.Violations {
+				t.Logf("RAC-VIOLATION kind=%s\nscript: %q\n%s", v.Kind, v.Script, v.Got)
+			}
+			return
+		}
 		if what == nil {
 			continue
 		}
